@@ -29,7 +29,10 @@
 EXTENDS CPCTPlus, Json, IOUtils
 
 CONSTANTS L,        \* input length bound
-          MAXC      \* repair cost bound (nodes beyond it are dropped: result `capped')
+          MAXC,     \* repair cost bound (nodes beyond it are dropped: result `capped')
+          Variant   \* "code", or a deliberately wrong algorithm that the properties must refute:
+                    \* "nodel" (nodes merged although only one ends in a delete), "nosweep" (stop
+                    \* at the first success node)
 Gs == ndJsonDeserialize(IOEnv.GRAMMARS)
 
 VARIABLES gi, inp, tbl, tcost, st0, la0,     \* the instance: grammar, input, table, token tcost, error configuration
@@ -55,7 +58,7 @@ LexOfToks(x) == [i \in 1 .. Len(x) |-> <<x[i], 2 * (i - 1), 1>>]
 
 \* ---- entries ----
 Top(st) == st[Len(st)]
-Key(e) == <<e.st, e.la, e.del, e.ns>>
+Key(e) == IF Variant = "nodel" THEN <<e.st, e.la, e.ns>> ELSE <<e.st, e.la, e.del, e.ns>>
 AddRep(e, r) == { Append(s, r) : s \in e.reps }
 SuccessE(e) == e.ns >= ParseAtLeast \/ TAct(tbl, Top(e.st), Tok(inp, e.la))[1] = "a"
 
@@ -107,7 +110,7 @@ Advance ==
 Pop(e) ==
   /\ phase = "search" /\ e \in buckets[bc]
   /\ IF SuccessE(e)
-     THEN /\ scs' = {e} /\ phase' = "sweep" /\ sweep' = buckets[bc] \ {e}
+     THEN /\ scs' = {e} /\ phase' = (IF Variant = "nosweep" THEN "done" ELSE "sweep") /\ sweep' = buckets[bc] \ {e}
           /\ UNCHANGED <<buckets, bc, capped>>
      ELSE LET nb   == InsE(e, bc) \cup DelE(e, bc) \cup ShiftE(e, bc)
               keep == {x \in nb : x[1] <= MAXC}
